@@ -99,3 +99,18 @@ def _merge_incoherent(branches, q, b, n):
 def apply_all(branches, n, U, qs):
     return {vals: [apply(st, n, U, qs) for st in (items if isinstance(items, list) else [items])]
             for vals, items in branches.items()}
+
+
+def statevector(tk_circuit):
+    """final state of a measurement-free circuit started in |0..0>"""
+    qubits = list(tk_circuit.qubits)
+    qi = {q: k for k, q in enumerate(qubits)}
+    n = len(qubits)
+    state = numpy.zeros(2 ** n, dtype=complex)
+    state[0] = 1
+    for cmd in tk_circuit.get_commands():
+        name = cmd.op.type.name
+        if name in ('Barrier', 'noop'):
+            continue
+        state = apply(state, n, gate_matrix(name, cmd.op.params), [qi[q] for q in cmd.qubits])
+    return state
